@@ -156,33 +156,17 @@ fn case_inner(a: &Atk) -> CaseOut {
         .filter(|(_, s)| s.contains("reset-suffix ExactCurrent"))
         .filter_map(|(_, s)| s.rsplit(' ').next().and_then(|v| v.parse().ok()))
         .collect();
-    // ---- (3) Reset iff exact token
+    // ---- (3) Reset only for the exact token: a connection reports Reset only if it was handed a
+    // datagram whose last 16 bytes are the token the peer's endpoint issued for the connection ID the
+    // connection was sending to at that moment (evaluated by the network at every delivery, whoever
+    // produced the datagram: attacker suffixes, truncated copies that happen to end in a token carried
+    // by a NEW_CONNECTION_ID frame - readable under SimCrypto -, genuine stateless resets)
     for (k, c) in w.conns.iter().enumerate() {
         let reset = c.app.lost_reasons.iter().any(|r| matches!(r, quinn_proto::ConnectionError::Reset));
-        let genuine_reset = w.trace.iter().any(|r| matches!(r, Rec::TxEp { .. }));
-        // Under SimCrypto payloads are readable, so a truncated copy can happen to end exactly with a
-        // reset token carried in a NEW_CONNECTION_ID frame (impossible with real packet protection):
-        // such a datagram *is* a stateless reset with the right token.
-        let mut tokens: Vec<Vec<u8>> = vec![];
-        for r in &w.trace {
-            if let Rec::Tx { dgrams, conn, .. } = r {
-                for p in dgrams.iter().flat_map(|d| d.pkts.iter()) {
-                    for f in p.frames.iter().flatten() {
-                        if let OF::NewConnectionId { reset_token, .. } = f {
-                            tokens.push(reset_token.to_vec());
-                        }
-                    }
-                    if !p.scid.is_empty() {
-                        tokens.push(w.reset_token_for(w.conns[*conn].ep, &p.scid).to_vec());
-                    }
-                }
-            }
-        }
-        let accidental = w.attack_tails.iter().any(|t| tokens.contains(t));
-        if reset && !exact_resets.contains(&k) && !genuine_reset && !accidental {
+        if reset && !w.exact_reset_seen.contains(&k) {
             return CaseOut::fail(
                 "c04/reset-without-token",
-                format!("conn {k} ({:?}) reported Reset but no datagram carrying its current reset token was ever sent; attacks: {:?}", c.side, w.attack_log),
+                format!("conn {k} ({:?}) reported Reset but no datagram handed to it ended in the reset token of the connection ID it was sending to; attacks: {:?}", c.side, w.attack_log),
             );
         }
     }
@@ -386,6 +370,9 @@ fn case_inner(a: &Atk) -> CaseOut {
     if has("reset-suffix OtherCid") || has("reset-suffix NearMiss") {
         labels.push("reset-near-miss");
     }
+    if has("reset-suffix IssuedNotInUse") {
+        labels.push("reset-issued-not-in-use");
+    }
     if has("splice") {
         labels.push("splice");
     }
@@ -425,9 +412,9 @@ pub fn run(report: &Report) -> i32 {
     run_prop(
         report,
         "c04",
-        "proptest-generated transfers (1-2 connections) with an attacker acting on copies of genuine datagrams: replays at any later time (incl. the connection-creating Initial), bit flips / truncation / extension, cross-connection CID splices, 16-byte reset-token suffixes (exact, other CID, one-bit miss); oracles: per-frame-type receive counters never exceed the frames contained in distinct genuine packets delivered, twin run without attacker gives the same application-visible history, Reset only for the exact token; non-trivial = at least one injected datagram was routed to a connection",
+        "proptest-generated transfers (1-2 connections) with an attacker acting on copies of genuine datagrams: replays at any later time (incl. the connection-creating Initial), bit flips / truncation / extension, cross-connection CID splices, 16-byte reset-token suffixes (exact, other CID, one-bit miss, tokens issued for connection IDs not in use); oracles: per-frame-type receive counters never exceed the frames contained in distinct genuine packets delivered, twin run without attacker gives the same application-visible history, Reset only after a datagram ending in the token of the connection ID in use at that moment; non-trivial = at least one injected datagram was routed to a connection",
         arb_atk,
-        report.cases(5000, 250_000),
+        report.cases(25_000, 600_000),
         case,
     );
     report.finish("generated-input search (proptest) with at-most-once accounting and a differential twin run")
